@@ -195,7 +195,7 @@ func init() {
 		{"tcp", []string{"tcp-service-port"}, nil, map[string]int{"ing_update": 18, "ing_create": 10, "ing_delete": 8}, nil,
 			map[string][]string{"tcp-service-port": {"7000", "7000", "7000", "7001"}}},
 		{"tls", []string{"auth-tls-secret", "secure-crt-secret", "secure-verify-ca-secret", "secure-backends"}, nil, map[string]int{"secret_rotate": 12, "secret_delete": 6, "secret_create": 8, "secret_break": 3}, nil, nil},
-		{"affinity", []string{"affinity", "session-cookie-preserve", "session-cookie-value-strategy", "dynamic-scaling", "slots-min-free", "blue-green-deploy", "initial-weight"}, []string{"dynamic-scaling", "drain-support"}, map[string]int{"ep_scale": 25, "ep_ready": 10, "ep_replace": 12, "pod_term": 6}, nil, nil},
+		{"affinity", []string{"affinity", "session-cookie-preserve", "session-cookie-value-strategy", "dynamic-scaling", "slots-min-free", "blue-green-deploy", "initial-weight"}, []string{"dynamic-scaling", "drain-support"}, map[string]int{"ep_scale": 25, "ep_ready": 10, "ep_replace": 12, "ep_reorder": 6, "pod_term": 6}, nil, nil},
 	}
 	mkFocus := func(prop string, f focus, or OracleSet, lagfree func(r *rand.Rand) bool, shards bool) {
 		weight := 1
@@ -233,7 +233,7 @@ func init() {
 	}
 
 	// ---------------- C02: running HAProxy never diverges from disk after runtime updates
-	dynWeights := map[string]int{"ep_scale": 25, "ep_ready": 10, "ep_replace": 12, "pod_term": 4, "secret_rotate": 8, "ing_ann": 5, "ing_update": 3,
+	dynWeights := map[string]int{"ep_scale": 25, "ep_ready": 10, "ep_replace": 12, "ep_reorder": 8, "pod_term": 4, "secret_rotate": 8, "ing_ann": 5, "ing_update": 3,
 		"svc_update": 3, "global_change": 1, "renotify": 2, "advance": 6}
 	dynKeys := []string{"affinity", "session-cookie-dynamic", "session-cookie-name", "session-cookie-strategy", "session-cookie-preserve", "session-cookie-value-strategy", "initial-weight",
 		"blue-green-deploy", "blue-green-header", "blue-green-cookie", "backend-server-naming", "slots-min-free", "backend-server-slots-increment", "dynamic-scaling", "balance-algorithm", "maxconn-server",
@@ -265,6 +265,22 @@ func init() {
 	mkDyn("dyn", false)
 	mkDyn("dyn-faults", true)
 	// blue/green selectors: use-server rules exist in the files only; a slot that changes group needs a reload
+	// backends that are not updated dynamically (dynamic-scaling false) next to ones that are, endpoints in the
+	// order of the API (--sort-endpoints-by=endpoint) and the same addresses coming back in another order
+	register(&Profile{Name: "dyn-static", Prop: "C02", Weight: 1,
+		Oracles: OracleSet{Property: "C02", EffectiveStep: true, EffectiveAtSync: true},
+		Build: func(seed uint64, tier string) *RunConfig {
+			r := cfgRng(seed)
+			mn, mx := tierOps(tier, 8, 24)
+			ctl := sampleCtl(r)
+			ctl.SortEndpointsBy = "endpoint"
+			rc := &RunConfig{Property: "C02", Profile: "dyn-static", Seed: seed, Ctl: ctl, MapOrder: r.IntN(2) == 0, Lagfree: r.IntN(2) == 0, MidSched: r.IntN(2) == 0}
+			w := map[string]int{"ep_reorder": 20, "ep_scale": 10, "ep_replace": 10, "ep_ready": 5, "secret_rotate": 6, "ing_ann": 4, "renotify": 2, "advance": 5}
+			rc.World, rc.Ops = GenerateRun(seed, GenOptions{Sparse: r.IntN(2) == 0, IngressKeys: []string{"dynamic-scaling", "balance-algorithm", "initial-weight", "ssl-redirect"},
+				MinOps: mn, MaxOps: mx, QuiesceEvery: pickInt(r, 3, 6), KeysPerRun: 3, W: w, NoForeignClass: true,
+				InitialGlobal: map[string]string{"dynamic-scaling": []string{"false", "false", "true"}[r.IntN(3)]}})
+			return rc
+		}})
 	register(&Profile{Name: "dyn-bluegreen", Prop: "C02", Weight: 1,
 		Oracles: OracleSet{Property: "C02", EffectiveStep: true, EffectiveAtSync: true},
 		Build: func(seed uint64, tier string) *RunConfig {
@@ -434,7 +450,7 @@ func init() {
 			r := cfgRng(seed)
 			ctl := sampleCtl(r)
 			// (a static world: the constraints whose recorded trigger needs an update of an existing object are lifted)
-			lift := []string{"no_dup_paths", "no_new_default_backend", "ingress_hosts_fixed"}
+			lift := []string{"no_dup_paths", "no_new_default_backend", "ingress_hosts_fixed", "unique_host_claims"}
 			ctl.TCPConfigMap = r.IntN(4) == 0
 			rc := &RunConfig{Property: "C06", Profile: "order", Seed: seed, Ctl: ctl, MapOrder: true, Lagfree: true, IgnoreAvoid: lift}
 			// dense worlds: few hosts and paths, many ingresses, so that declarations collide
@@ -449,12 +465,14 @@ func init() {
 		Build: func(seed uint64, tier string) *RunConfig {
 			r := cfgRng(seed)
 			ctl := sampleCtl(r)
-			lift := []string{"no_dup_paths", "no_new_default_backend", "ingress_hosts_fixed", "no_external_auth"}
+			lift := []string{"no_dup_paths", "no_new_default_backend", "ingress_hosts_fixed", "no_external_auth", "unique_host_claims"}
 			rc := &RunConfig{Property: "C06", Profile: "order-oauth", Seed: seed, Ctl: ctl, MapOrder: true, Lagfree: true, IgnoreAvoid: lift}
 			rc.World, rc.Ops = GenerateRun(seed, GenOptions{Sparse: r.IntN(4) == 0, NoOps: true, MaxIngresses: pickInt(r, 4, 6, 8), KeysPerRun: pickInt(r, 2, 4),
-				AnnChance: 2, ExcludeIngressKeys: []string{"waf", "cert-signer"}, ForceIngressKeys: []string{"oauth"}, NoForeignClass: true, IgnoreAvoid: lift,
-				InitialGlobal: map[string]string{"external-has-lua": "true"},
-				Paths:         []string{"/", "/app", "/oauth2", "/oauth2", "/api"}})
+				AnnChance: 2, ExcludeIngressKeys: []string{"waf", "cert-signer"}, ForceIngressKeys: []string{"oauth", "auth-url"}, NoForeignClass: true, IgnoreAvoid: lift,
+				// (one authentication host reached with and without TLS: the shared auth backend must not depend on who came first)
+				ValueOverrides: map[string][]string{"auth-url": {"http://10.9.9.9:8000/auth", "https://10.9.9.9:8000/auth", "http://10.9.9.8:8000/x"}},
+				InitialGlobal:  map[string]string{"external-has-lua": "true", "auth-proxy": "_front__auth:14415-14419"},
+				Paths:          []string{"/", "/app", "/oauth2", "/oauth2", "/api"}})
 			return rc
 		}})
 	// the same after a short lag-free history: objects that were updated, deleted and re-created
@@ -547,7 +565,7 @@ func init() {
 			rc.World, rc.Ops = GenerateRun(seed, GenOptions{IngressKeys: []string{"auth-external-placement", "balance-algorithm", "auth-url"},
 				ValueOverrides: map[string][]string{"auth-external-placement": {"backend", "frontend"}, "auth-url": {"svc://s2:8080"}},
 				ServiceKeys:    []string{"auth-url", "auth-external-placement"}, SvcAnnChance: 2,
-				GlobalKeys:     []string{"auth-proxy", "timeout-client"}, InitialGlobal: initial, AnnChance: 2, OwnHostAlways: true, Sparse: true,
+				GlobalKeys: []string{"auth-proxy", "timeout-client"}, InitialGlobal: initial, AnnChance: 2, OwnHostAlways: true, Sparse: true,
 				MinOps: mn, MaxOps: mx, QuiesceEvery: pickInt(r, 2, 4), KeysPerRun: 3, W: w, NoForeignClass: true})
 			return rc
 		}})
